@@ -41,6 +41,8 @@ def _mk_interp(f, linker):
     it.opaque_call = opaque
     # the escape code is decided per character elsewhere (C03 / C17): here its result is one opaque escaped text
     it.builtins["crate::backend::EscapeBuilder::escape_string"] = lambda it_, a: "<escaped>"
+    # likewise the identifier quoting (C04): one opaque quoted name
+    it.builtins["crate::types::Iden::quoted"] = lambda it_, a: "<quoted>"
     # dispatch of `self.method(..)` on the builder traits: resolve for this backend
     for tr in L.BUILDER_TRAITS:
         t = f.traits.get(tr)
